@@ -333,6 +333,15 @@ Theorem sign_sites_as_modelled :
   forallb site_checked sign_sites = true /\ map site_id sign_sites = expected_site_ids.
 Proof. exact sites_as_modelled. Qed.
 
+(* The guards behind the acceptance theorems are present in /repo (table regenerated from the ast):
+   signature representative < n and of modulus length (pkcs1_rejects_everything_else: n <= s => rejected),
+   0 < r, s < q (dsa_verify_rejects_out_of_range), >= 8 bytes of padding (pkcs1_min_padding), the PSS checks
+   (pss_verify_checks_all), the rsa-pss key-type guard (pss_only_key_rejects_pkcs1), 2 <= y < p-1 and the
+   result check (ffdh_rejects), length and all-zero check (x_nonzero_check). *)
+Theorem range_guards_present :
+  forallb (fun g => existsb (guard_eqb g) range_guards) expected_range_guards = true.
+Proof. exact guards_present. Qed.
+
 Theorem modelled_sources_unchanged : src_fingerprints = expected_fingerprints.
 Proof. exact sources_unchanged. Qed.
 
